@@ -698,12 +698,7 @@ func ruleAncPath(w *World, r *Report) {
 	if walk == nil {
 		undecided("ANC-PATH: recursive ancestor walk not found")
 	}
-	var set *ssa.Parameter
-	for _, p := range walk.Params {
-		if _, ok := p.Type().Underlying().(*types.Map); ok {
-			set = p
-		}
-	}
+	set := ancLoopSet(walk)
 	key := "fn=" + fname(walk)
 	if set == nil {
 		r.info("ANC-PATH", key, w.Pos(walk.Pos()), "the walk has no set parameter (bounded in another way; see TERM)")
@@ -4075,4 +4070,161 @@ func ruleLoadPure(prop string) ruleFn {
 			r.exempt("LOAD-PURE", "impl=none", "", "no Storage implementation found: not decided")
 		}
 	}
+}
+
+// ANC-ONCE (C09, C01): an ancestor that is reachable over two parents is one ancestor.
+func ruleAncOnce(prop string) ruleFn {
+	return func(w *World, r *Report) {
+		r.Rule("ANC-ONCE", "the recursive ancestor walk visits every ancestor once: the call of the visit callback is control-dependent on a lookup in a visited set — a map that is carried through the recursion (a parameter or a captured variable), is written with the visited location's name, and from which the walk never deletes (which distinguishes it from the path set used for loop detection, whose entries are removed on the way back).  Without it an ancestor that is reachable over two parents (a diamond) is searched twice: inherited searches and queries return its facts twice, and event dispatch fails with `duplicate id` for each of its rules", 1)
+		var walk *ssa.Function
+		for _, name := range []string{"doAncestors", "DoAncestors"} {
+			if f := w.TryMethod("core", "Location", name); f != nil {
+				allInstrs(f, func(in ssa.Instruction) {
+					if c := callOf(in); c != nil && c.StaticCallee() == f {
+						walk = f
+					}
+				})
+			}
+		}
+		if walk == nil {
+			undecided("ANC-ONCE: recursive ancestor walk not found")
+		}
+		key := "fn=" + fname(walk)
+		var cbParam *ssa.Parameter
+		for _, p := range walk.Params {
+			if _, ok := p.Type().Underlying().(*types.Signature); ok {
+				cbParam = p
+			}
+		}
+		if cbParam == nil {
+			r.exempt("ANC-ONCE", key, w.Pos(walk.Pos()), "the walk has no callback parameter: shape not recognised, not decided")
+			return
+		}
+		var visit ssa.Instruction
+		allInstrs(walk, func(in ssa.Instruction) {
+			if _, isDefer := in.(*ssa.Defer); isDefer {
+				return
+			}
+			if c := callOf(in); c != nil && !c.IsInvoke() && c.Value == ssa.Value(cbParam) {
+				visit = in
+			}
+		})
+		if visit == nil {
+			r.exempt("ANC-ONCE", key, w.Pos(walk.Pos()), "the walk does not call its callback directly: shape not recognised, not decided")
+			return
+		}
+		isVisitedLookup := ancVisitedLookup(walk)
+		if controlDependsOn(walk, visit, isVisitedLookup) {
+			r.ok("ANC-ONCE", key, w.PosOf(visit), "the visit is skipped for a location that is in the visited set")
+		} else {
+			r.violation("ANC-ONCE", key, w.PosOf(visit), "the ancestor walk has no visited set (only the path, which is unwound): an ancestor reachable over two parents is visited twice — duplicate inherited facts, `duplicate id` on event dispatch")
+		}
+	}
+}
+
+// ancLoopSet: the map parameter of the ancestor walk that guards against loops: a lookup in it decides a refusal
+// (a non-nil error return).  A second map parameter whose lookup decides a silent skip is the visited set (ANC-ONCE).
+func ancLoopSet(walk *ssa.Function) *ssa.Parameter {
+	var maps []*ssa.Parameter
+	for _, p := range walk.Params {
+		if _, ok := p.Type().Underlying().(*types.Map); ok {
+			maps = append(maps, p)
+		}
+	}
+	for _, p := range maps {
+		isLk := func(v ssa.Value) bool {
+			lk, ok := v.(*ssa.Lookup)
+			return ok && resolveSpill(lk.X) == ssa.Value(p)
+		}
+		found := false
+		for _, b := range walk.Blocks {
+			if len(b.Instrs) == 0 {
+				continue
+			}
+			ifi, ok := b.Instrs[len(b.Instrs)-1].(*ssa.If)
+			if !ok {
+				continue
+			}
+			ct, ok := decodeIf(ifi)
+			if !ok || !dependsOn(ct.V, isLk) {
+				continue
+			}
+			// the refusal hangs directly on the lookup: the `present` edge leads straight to a non-nil error return
+			succ := b.Succs[0]
+			if ct.TrueWhen == "false" {
+				succ = b.Succs[1]
+			}
+			if len(succ.Instrs) > 0 {
+				if ret, ok := succ.Instrs[len(succ.Instrs)-1].(*ssa.Return); ok && !isSuccessReturnPS(ret) {
+					found = true
+				}
+			}
+		}
+		if found {
+			return p
+		}
+	}
+	if len(maps) == 1 {
+		return maps[0]
+	}
+	return nil
+}
+
+// ancVisitedLookup: predicate for a lookup in a visited set of the ancestor walk: a map-typed parameter or captured
+// variable that the walk writes and never deletes from.
+func ancVisitedLookup(walk *ssa.Function) func(ssa.Value) bool {
+	written, deleted := map[ssa.Value]bool{}, map[ssa.Value]bool{}
+	withAnon(walk, func(g *ssa.Function) {
+		allInstrs(g, func(in ssa.Instruction) {
+			if mu, ok := in.(*ssa.MapUpdate); ok {
+				written[resolveSpill(mu.Map)] = true
+			}
+			if c := callOf(in); c != nil {
+				if b, ok := c.Value.(*ssa.Builtin); ok && b.Name() == "delete" && len(c.Args) == 2 {
+					deleted[resolveSpill(c.Args[0])] = true
+				}
+			}
+		})
+	})
+	return func(v ssa.Value) bool {
+		lk, ok := v.(*ssa.Lookup)
+		if !ok {
+			return false
+		}
+		m := resolveSpill(lk.X)
+		if _, isMap := m.Type().Underlying().(*types.Map); !isMap {
+			return false
+		}
+		switch m.(type) {
+		case *ssa.Parameter, *ssa.FreeVar:
+		default:
+			return false
+		}
+		return written[m] && !deleted[m]
+	}
+}
+
+// ancVisitedEdges: the edges of the walk on which a lookup in the visited set said `already visited`.
+func ancVisitedEdges(walk *ssa.Function) map[bedge]bool {
+	isV := ancVisitedLookup(walk)
+	out := map[bedge]bool{}
+	for _, b := range walk.Blocks {
+		if len(b.Instrs) == 0 {
+			continue
+		}
+		ifi, ok := b.Instrs[len(b.Instrs)-1].(*ssa.If)
+		if !ok {
+			continue
+		}
+		ct, ok := decodeIf(ifi)
+		if !ok || !dependsOn(ct.V, isV) {
+			continue
+		}
+		if ct.TrueWhen == "true" {
+			out[bedge{b, 0}] = true
+		} else if ct.TrueWhen == "false" {
+			out[bedge{b, 1}] = true
+		}
+	}
+	return out
 }
